@@ -208,24 +208,34 @@ def buffer_rules(fb, R):
             ok = ok and 'm_committed' in srctxt
         R.check(ok, 'B3-grow_internal-order', fn.q + '#copy-uncommitted-tail', fn.site,
                 'grow_internal must copy the uncommitted tail (old data + m_committed) into the new m_data after m_data was re-pointed')
-    for fn in fb.fns(BUF + '::reserve_space'):
-        gi = [n for n in fn.all_nodes() if n.get('k') == 'call' and n.get('q') == BUF + '::grow_internal']
-        ok = len(gi) >= 1
-        for c in gi:
-            gs = guards_of(fn, c['id'])
-            has_committed = False
-            for (cn, sense, _b) in gs:
-                x = fn.sn(cn)
-                if x is not None and x.get('k') == 'binop' and x['op'] in ('!=', '>') and sense:
-                    if this_field(fn, x['lhs'], 'm_committed') and fn.const_value(x['rhs']) == 0:
-                        has_committed = True
-                if x is not None and x.get('k') == 'member' and x.get('name') == 'm_committed' and sense:
+    # every call of grow_internal (wherever it lives: reserve_space or a helper it was extracted into) needs committed data
+    gi_sites = [(fn, n) for fn in methods for n in fn.all_nodes() if n.get('k') == 'call' and n.get('q') == BUF + '::grow_internal']
+    okall = bool(gi_sites)
+    site = methods[0].site if methods else BUF
+    for (fn, c) in gi_sites:
+        site = fn.loc(c['id'])
+        gs = guards_of(fn, c['id'])
+        has_committed = False
+        for (cn, sense, _b) in gs:
+            x = fn.sn(cn)
+            if x is not None and x.get('k') == 'binop' and sense:
+                if x['op'] in ('!=', '>') and this_field(fn, x['lhs'], 'm_committed') and fn.const_value(x['rhs']) == 0:
                     has_committed = True
-            ok = ok and has_committed
-        R.check(ok, 'B3-grow_internal-needs-committed-data', fn.q, fn.site,
-                'reserve_space must call grow_internal() only when m_committed != 0 (otherwise an empty nested buffer is chained, which '
-                'consumers of nested buffers do not expect)')
-        # growth happens before the address is taken: covered by STALE-L on the local derived from m_data
+                if x['op'] in ('!=', '<') and this_field(fn, x['rhs'], 'm_committed') and fn.const_value(x['lhs']) == 0:
+                    has_committed = True
+            if x is not None and x.get('k') == 'binop' and not sense and x['op'] == '==':
+                if (this_field(fn, x['lhs'], 'm_committed') and fn.const_value(x['rhs']) == 0) or \
+                        (this_field(fn, x['rhs'], 'm_committed') and fn.const_value(x['lhs']) == 0):
+                    has_committed = True
+            if x is not None and x.get('k') == 'member' and x.get('name') == 'm_committed' and sense and fn.is_this_member(cn):
+                has_committed = True
+            if x is not None and x.get('k') == 'call' and x.get('q') == BUF + '::committed' and sense:
+                has_committed = True
+        okall = okall and has_committed
+    R.check(okall, 'B3-grow_internal-needs-committed-data', BUF + '#grow_internal-call', site,
+            'grow_internal() must be called only when m_committed != 0 (otherwise an empty nested buffer is chained, which consumers '
+            'of nested buffers do not expect)')
+    # growth happens before the address is taken: covered by STALE-L on the local derived from m_data
 
 
 # ------------------------------------------------------------------------------------------------ size conservation
